@@ -1,6 +1,6 @@
 (* Properties_C14.v — C14: species are addressed by name consistently, whatever internal ordering.
    Property theorems only; proofs in AssemblyProofs.v. *)
-From Model Require Import Base Assembly AssemblyProofs.
+From Model Require Import Base LU ProcessSetM Assembly AssemblyProofs MarkowitzReal BuilderMap.
 From Coq Require Import Permutation.
 Local Open Scope nat_scope.
 
@@ -31,3 +31,24 @@ Example C14_example :
   species_map [10; 20; 30] (Some [2; 0; 1]) = [(10,0); (20,1); (30,2); (30,0); (10,1); (20,2)] /\
   map_lookup (species_map [10; 20; 30] (Some [2; 0; 1])) 10 = Some 1.
 Proof. vm_compute. split; reflexivity. Qed.
+
+(* the heuristic DiagonalMarkowitzReorder actually uses (MarkowitzReal.real_choose: Markowitz counts in size_t arithmetic
+   with their wrap-around, strict minimum from (n-1)^2, partial swaps and fill-in of the working pattern) is one
+   instance of the parameter above; this instance is the function the correspondence check runs against the real
+   routine on every 0/1 pattern up to 3x3 (4x4 thorough) and random larger ones *)
+Theorem C14_real_reordering_returns_a_permutation :
+  forall n (P : pat2), Permutation (markowitz_real n P) (seq 0 n).
+Proof. intros n P. exact (markowitz_is_permutation pat2 (real_choose n) n P). Qed.
+Print Assumptions C14_real_reordering_returns_a_permutation.
+
+(* SolverBuilder::GetSpeciesMap composed from its parts (BuilderMap.builder_species_map: listing-order map -> process
+   set -> non-zero Jacobian elements -> the real reordering -> final map and variable names; run against built solvers
+   by the correspondence check): for duplicate-free species names, any mechanism and either reordering option, the
+   map is a bijection onto 0..N-1 and the variable names are exactly the names listed by it *)
+Theorem C14_builder_map_is_a_bijection :
+  forall (N : Num) names (rxns : list (reaction N)) reorder m vn,
+    NoDup names -> builder_species_map N names rxns reorder = Ok (m, vn) ->
+    exists final, NoDup final /\ Permutation final names /\
+      (forall i, i < length names -> map_lookup m (nth i final 0) = Some i) /\ vn = final.
+Proof. exact builder_map_bijection. Qed.
+Print Assumptions C14_builder_map_is_a_bijection.
